@@ -63,7 +63,7 @@ impl<T> IntoDeque<T> for Vec<T> { #[verifier::external_body] fn into_deque(self)
 pub fn search_skeleton_for_first_key_type<'b>(skeleton: &'b [ClauseIndexInfo], retracted: &'b Option<Vec<ClauseIndexInfo>>,
     key_type: OptArgIndexKeyType, append_or_prepend: AppendOrPrepend) -> (r: Option<&'b OptArgIndexKey>) { unimplemented!() }
 // unreachable!(): panics; nothing is written afterwards (R18)
-#[verifier::external_body] pub fn unreachable_abort<T>() -> (r: T) ensures false { unimplemented!() }
+#[verifier::external_body] pub fn unreachable_abort() -> ! { unimplemented!() }
 #[verifier::external_body] pub fn debug_assert_shim(b: bool) { unimplemented!() }
 
 pub assume_specification<T> [<[T]>::swap] (s: &mut [T], a: usize, b: usize)
